@@ -139,16 +139,18 @@ func TestCases(t *testing.T) {
 			}
 			res.Eval(true)
 		}
+		ran := 0 // cases actually run: choices made by position must not alias with the seed-dependent selection above
 		err := vh.ReadCases(path, func(idx int, raw []byte) error {
 			if (idx+int(seed))%every != 0 {
 				return nil
 			}
+			ran++
 			var c tcase
 			if err := json.Unmarshal(raw, &c); err != nil {
 				return fmt.Errorf("case %d: %v", idx, err)
 			}
 			rng := vh.NewRng(seed, idx)
-			g := groups[idx%len(groups)]
+			g := groups[ran%len(groups)]
 			var pcts []float64
 			for p := range c.Pcts {
 				if rng.Intn(3) != 0 {
@@ -168,7 +170,7 @@ func TestCases(t *testing.T) {
 				tags = append(tags, "gsd_histogram:"+tagPool[c.Tag])
 			}
 			var many gostatsd.Tags
-			if idx%4 == 3 { // series with many tags: ten on the timer (one more with the bucket tag a backend adds), twelve on the gauge
+			if ran%4 == 3 { // series with many tags: ten on the timer (one more with the bucket tag a backend adds), twelve on the gauge
 				for k := 0; k < 9; k++ {
 					tags = append(tags, fmt.Sprintf("t%d:v", k))
 				}
